@@ -1,4 +1,5 @@
 """C10 - every decoder terminates with work bounded by the size of its input."""
+import re
 import glob, os, struct, sys, tracemalloc
 from framework import call_impl, REPO
 from props import C01, C06, C07, C08, C14, C15, C16, C17
@@ -356,9 +357,15 @@ def oracle(c, ir):
         return '%s: peak allocation %d bytes for %d input bytes (+%d declared)' % (t, r['peak'], len(data), decl)
     return None
 
+QUAD = 0.25       # the recorded finding is quadratic work with a small constant: at most QUAD * n^2 executed lines
+
 def known(c, fail):
+    # the open finding is identified by its growth law, so that anything worse than quadratic in the decompiler
+    # (cubic rescans, exponential recursion) is still reported
     if c['t'] == 'lscr' and 'source lines executed' in fail:
-        return 'C10-decompiler-quadratic'
+        m = re.search(r': (\d+) source lines executed for (\d+) input bytes', fail)
+        if m and int(m.group(1)) <= QUAD * int(m.group(2)) ** 2:
+            return 'C10-decompiler-quadratic'
     return None
 
 def shrink_candidates(c):
